@@ -265,6 +265,38 @@ func (p *Pilot) ZeroParams() {
 	}
 }
 
+// SetRegistryWithDuplicates: the administrator replaces the registry by the current list plus a SECOND entry for
+// a denom that is already listed (MsgSetRegistry stores the list as given), the copies differing in permissions
+// and decimals; a MsgRegister on that denom then updates the first copy only.  All readers use the first entry
+// of a denom; an export must carry the list as it is.
+func (p *Pilot) SetRegistryWithDuplicates() {
+	adm := p.W.Admin
+	reg := p.C.App.TokenRegistryKeeper.GetRegistry(p.C.Ctx())
+	if len(reg.Entries) == 0 {
+		return
+	}
+	tok := tokens[p.R.Intn(len(tokens))]
+	entries := make([]*trtypes.RegistryEntry, 0, len(reg.Entries)+2)
+	entries = append(entries, reg.Entries...)
+	dup := &trtypes.RegistryEntry{Denom: tok.Denom, BaseDenom: tok.Denom, Decimals: int64(p.R.Intn(19)), DisplayName: "second copy"}
+	if p.R.Bool() {
+		dup.Permissions = []trtypes.Permission{trtypes.Permission_IBCIMPORT}
+	}
+	entries = append(entries, dup)
+	if p.R.Bool() { // and an exact copy of another entry
+		c := *reg.Entries[p.R.Intn(len(reg.Entries))]
+		entries = append(entries, &c)
+	}
+	m := &trtypes.MsgSetRegistry{From: adm.Addr.String(), Registry: &trtypes.Registry{Entries: entries}}
+	if r := p.Tx("registry.set.duplicates", adm, m); r.Code != 0 {
+		return
+	}
+	up := &trtypes.MsgRegister{From: adm.Addr.String(), Entry: &trtypes.RegistryEntry{Denom: tok.Denom, BaseDenom: tok.Denom, Decimals: tok.Decimals, DisplayName: "first copy, updated",
+		Permissions: []trtypes.Permission{trtypes.Permission_CLP, trtypes.Permission_IBCEXPORT, trtypes.Permission_IBCIMPORT}}}
+	p.Tx("registry.register.duplicated-denom", adm, up)
+	p.restartNext = true
+}
+
 // EditReadFail: [edit X, a message that reads X (succeeds, or is refused after reading), a send of more than the
 // sender owns] — rejected as a whole.  Whatever the reader computed or cached from the edited X must be gone
 // with the transaction; the block after it becomes a restart point of the `restarted` executions, so that a node
